@@ -6,9 +6,9 @@ from . import gen, c01, c02, c04, c06, c08, c09, c11, c14, histcommon
 ID = 'C13'
 HARNESSES = ['h_c01.cpp', 'h_load.cpp', 'h_hist.cpp', 'h_c06.cpp', 'h_c09.cpp', 'h_c11.cpp']
 LEVEL = 'model_checking'
-BUDGET = {'quick': 290, 'thorough': 3400}
+BUDGET = {'quick': 290, 'thorough': 6000}
 BOUNDS = {'quick': 'union of: C01 build->write->load configurations, C04 load->save->load->save on every C02 layout variant, all API histories of depth 2 from 4 start states ending with print(), write, reload and destruction, C06/C08 frame-store families, C09 tree edits, C11 look-ups with free indices and names, C14 double saves; monitored on every path: out-of-bounds and use-after-free at object granularity (4 KiB red zones, no address reuse), invalid/double free, allocator mismatch (new[] vs delete), libstdc++ container assertions (index, empty front/back, null shared_ptr), calls through dead objects',
-          'thorough': 'the thorough sets of the same families, histories of depth 3'}
+          'thorough': 'the thorough sets of the same families; histories of depth 2 from all six start states with the print+save+reload epilogue, and of depth 3 without it'}
 OUTSIDE = 'damaged input files (C16); leaks are counted, not failed on; uninitialised reads that are not observable (C14/C19 judge observable ones)'
 ASSUMPTIONS = ['-D_GLIBCXX_ASSERTIONS turns libstdc++ precondition violations (operator[] out of range, front() on empty, * on null shared_ptr) into calls the executor sees; they do not change valid executions']
 RULE = 'one evaluation = one finished symbolic path; every path is judged (fatal end or recoverable memory event); non-trivial = symbolic payload or a forked choice'
@@ -17,14 +17,18 @@ MEM_EVENTS = ('mismatched-deallocation',)
 def jobs(tier, seed):
     out = []
     for j in [x for x in c01.jobs(tier, seed) if x.get('name') != 'hist']:
+        if tier == 'quick' and is_sweep(j): continue
         if j['cfg']['pad'] < 0 or j['cfg']['pad'] % 64 == 0: out.append(dict(j, family='build-save-load'))
     for j in c04.jobs(tier, seed):
-        if tier == 'quick' and j['name'] in ('labels_more', 'desc255'): continue
+        if tier == 'quick' and (j['name'] in ('labels_more', 'desc255') or is_sweep(j)): continue
         if j['name'] == 'align' and j['opts']['extras'][0]['desc_len'] % 32 != 31: continue      # the alignment sweep is C04's subject; keep the 255-character cases
         out.append(dict(j, family='load-save-load'))
-    for j in histcommon.hist_jobs(tier, seed, finish=1):
+    for j in histcommon.hist_jobs('quick', seed, finish=1):
         if tier == 'quick' and j['cfg']['start'] in (1, 3, 5): continue      # quick: fresh, populated and fewer-labels start states (the others are C05/C07/C10's daily runs, same monitors)
         out.append(dict(j, family='history'))
+    if tier == 'thorough':
+        # depth 3 without the print/save/reload epilogue (it is 3/4 of the cost of a history; the epilogue runs on every depth-2 history above)
+        for j in histcommon.hist_jobs('thorough', seed, finish=0): out.append(dict(j, family='history'))
     for j in c06.jobs(tier, seed): out.append(dict(j, family='frame-store'))
     for j in c08.jobs(tier, seed): out.append(dict(j, family='aliasing'))
     for j in c09.jobs(tier, seed):
